@@ -17,6 +17,12 @@
 (*            is {t0} union the prediction's own steps                                                    *)
 (*   obstacle o = [id, role, type, t0, shape, init, pred]  (phantom: id, role, type, t0, pred)            *)
 (*            role in {"static", "dynamic", "phantom", "environment"}                                     *)
+(*   a trajectory prediction may carry its own shape (pred.shape, after `prediction.shape = ...`)        *)
+(*   modification m (HISTORY dimension: the contract holds for the CURRENT data of the obstacle):         *)
+(*            [k |-> "move", via, id, tx, ty, q]  translate by (tx, ty), then rotate by q quarter turns   *)
+(*                 about the origin; via in {"obstacle", "scenario", "prediction"}; id = 0: all obstacles *)
+(*            [k |-> "set_trajectory", id, states] | [k |-> "set_shape", id, shape]                        *)
+(*            [k |-> "update_prediction", id, pred]                                                        *)
 EXTENDS Integers, Sequences, FiniteSets, TLC
 
 Range(s) == {s[i] : i \in DOMAIN s}
@@ -81,10 +87,12 @@ SrcState(o, t) ==      \* the state the occupancy at t is derived from (NoneV fo
          [] OTHER -> NoneV
 IsUncertain(o, t) == SrcState(o, t).k = "state" /\ SrcState(o, t).unc # "none"
 
+PredShape(o) == IF o.pred.k = "traj" /\ "shape" \in DOMAIN o.pred THEN o.pred.shape ELSE o.shape
 Occ(o, t) ==           \* expected occupancy for exact states
     LET s == Source(o, t)
     IN CASE s.k = "None"   -> NoneV
          [] s.k = "SetOcc" -> Placed(o.pred.occs[s.i].shape, o.pred.occs[s.i].pose)     \* the stored occupancy
+         [] s.k = "Traj"   -> Placed(PredShape(o), PoseOf(SrcState(o, t)))
          [] OTHER          -> Placed(o.shape, PoseOf(SrcState(o, t)))
 
 AllStates(o) == IF o.role \in {"static", "dynamic"} THEN {o.init} \cup Range(TrajStates(o)) ELSE {}
@@ -104,6 +112,33 @@ RegionPoints2(s) ==    \* corners and centre of the position region (nominal pos
     ELSE {<<2 * s.x, 2 * s.y>>}
 Oris8(s) == IF s.unc \in {"ori", "both"} THEN {2 * s.q1, s.q1 + s.q2, 2 * s.q2} ELSE {2 * PoseOf(s)[3]}   \* start, mid, end
 Obligations(s) == {<<p[1], p[2], a>> : p \in RegionPoints2(s), a \in Oris8(s)}
+
+(* ---- history: ONE public modification; all answers afterwards are those of the modified descriptor ---- *)
+MoveP(m, p) == Rot(m.q, <<p[1] + m.tx, p[2] + m.ty>>)                       \* translate, then rotate about the origin
+MoveState(m, s) ==     \* exact states only
+    LET p == MoveP(m, <<s.x, s.y>>)  v == Rot(m.q, <<s.vx, s.vy>>)
+    IN [s EXCEPT !.x = p[1], !.y = p[2], !.q = IF s.kind \in PMKinds THEN @ ELSE (@ + m.q) % 4, !.vx = v[1], !.vy = v[2]]
+MoveStored(m, c) == LET p == MoveP(m, <<c.pose[1], c.pose[2]>>) IN [c EXCEPT !.pose = <<p[1], p[2], (c.pose[3] + m.q) % 4>>]
+MovePred(m, pr) ==
+    CASE pr.k = "traj" -> [pr EXCEPT !.states = [i \in DOMAIN pr.states |-> MoveState(m, pr.states[i])]]
+      [] pr.k = "set"  -> [pr EXCEPT !.occs = [i \in DOMAIN pr.occs |-> MoveStored(m, pr.occs[i])]]
+      [] OTHER -> pr
+MoveObstacle(o, m) ==
+    IF m.via = "prediction" \/ o.role = "phantom" THEN [o EXCEPT !.pred = MovePred(m, @)]       \* the initial state stays
+    ELSE [o EXCEPT !.init = MoveState(m, @), !.pred = MovePred(m, @)]
+Modify(o, m) ==
+    CASE m.k = "move" -> MoveObstacle(o, m)
+      [] m.k = "set_trajectory" -> [o EXCEPT !.pred = [k |-> "traj", g |-> m.states[1].t - o.t0 - 1, states |-> m.states]]
+      [] m.k = "set_shape" -> [o EXCEPT !.pred = [k |-> "traj", g |-> o.pred.g, states |-> o.pred.states, shape |-> m.shape]]
+      [] m.k = "update_prediction" -> [o EXCEPT !.pred = m.pred]
+Targets(o, m) == m.id = 0 \/ m.id = o.id
+ModifyS(S, m) == [i \in DOMAIN S |-> IF Targets(S[i], m) THEN Modify(S[i], m) ELSE S[i]]
+MoveRegion(m, x) ==    \* the rigid image of a placed region (doubled coordinates)
+    LET mv(p) == Rot(m.q, <<p[1] + 2 * m.tx, p[2] + 2 * m.ty>>)
+    IN CASE x.k = "poly"  -> [x EXCEPT !.vs = {mv(p) : p \in x.vs}]
+         [] x.k = "disc"  -> [x EXCEPT !.c = mv(x.c)]
+         [] x.k = "group" -> [x EXCEPT !.parts = {{mv(p) : p \in part} : part \in x.parts}]
+         [] OTHER -> x
 
 (* ---- scenario level: exactly the images of the per-obstacle answers (S = sequence of obstacles) ---- *)
 RoleOK(o, role) == role = "any" \/ o.role = role
